@@ -209,6 +209,10 @@ def _do(c, op, ctx):
         return fp(len(c.check(**_kw(op, ('fix', 'retry')))))
     if name == 'txn':
         return _txn(c, op, ctx)
+    if name == 'sleep':
+        from . import seams
+        seams.SIM_TIME.sleep(op['dt'])
+        return 'None'
     # Deque
     if name in ('append', 'appendleft'):
         getattr(c, name)(_value(op, ctx))
